@@ -127,6 +127,10 @@ def run_one(smt2, timeout_s, use_cvc5=True):
             out = "timeout"
         first = out.split("\n", 1)[0].strip()
         res["raw"] = out[:4000]
+        if first.startswith("(error"):
+            # a malformed query must never be read as a verdict
+            res["error"] = first
+            first = "unknown"
         if first == "unsat":
             res["verdict"] = "unsat"
         elif first == "sat":
@@ -275,6 +279,51 @@ def _index_terms(terms, limit=8):
     return list(out.values())
 
 
+def _ground_apps(terms):
+    """uninterpreted function applications (with arguments) occurring outside quantifiers, by declaration name"""
+    out = {}
+    seen = set()
+    stack = list(terms)
+    while stack:
+        x = stack.pop()
+        i = x.get_id()
+        if i in seen:
+            continue
+        seen.add(i)
+        if z3.is_quantifier(x):
+            continue
+        if z3.is_app(x):
+            if x.decl().kind() == z3.Z3_OP_UNINTERPRETED and x.num_args() > 0:
+                out.setdefault(x.decl().name(), []).append(x)
+            stack.extend(x.children())
+    return out
+
+
+def _patterns(body, nvars):
+    """applications f(..) in a quantifier body whose arguments include every bound variable directly"""
+    pats = []
+    seen = set()
+    stack = [body]
+    while stack:
+        x = stack.pop()
+        i = x.get_id()
+        if i in seen:
+            continue
+        seen.add(i)
+        if z3.is_quantifier(x):
+            continue
+        if z3.is_app(x):
+            if x.decl().kind() == z3.Z3_OP_UNINTERPRETED and x.num_args() > 0:
+                pos = {}
+                for ai, a in enumerate(x.children()):
+                    if z3.is_var(a):
+                        pos.setdefault(z3.get_var_index(a), ai)
+                if len(pos) == nvars:
+                    pats.append((x.decl().name(), pos, x))
+            stack.extend(x.children())
+    return pats
+
+
 def instantiate(hyps, goal, max_inst=600):
     """replace every top-level universally quantified hypothesis by its instances over the index terms of the goal
     (sound for proving; a model of the result is only a *candidate* counterexample)"""
@@ -289,9 +338,29 @@ def instantiate(hyps, goal, max_inst=600):
         uniq.setdefault(c.get_id(), c)
     cands = sorted(uniq.values(), key=lambda t: len(t.sexpr()))[:8]
     insts = []
+    ground = _ground_apps([goal2] + qf)
     for q in qs:
         n = q.num_vars()
         if any(q.var_sort(i) != z3.IntSort() for i in range(n)):
+            continue
+        # E-matching light: bind the bound variables from ground applications of the same function
+        matched = False
+        done = set()
+        for (fname, pos, pat) in _patterns(q.body(), n):
+            for g in ground.get(fname, []):
+                if g.num_args() != pat.num_args():
+                    continue
+                # de Bruijn index v corresponds to bound variable number (n - 1 - v)
+                binding = [None] * n
+                for v, ai in pos.items():
+                    binding[n - 1 - v] = g.arg(ai)
+                key = tuple(b.get_id() for b in binding)
+                if key in done or len(done) > max_inst:
+                    continue
+                done.add(key)
+                insts.append(z3.substitute_vars(q.body(), *reversed(binding)))
+                matched = True
+        if matched:
             continue
         combos = list(_it.product(cands, repeat=n))
         if len(combos) > max_inst:
@@ -382,15 +451,35 @@ def prepare_staged(hyps, opt, goal, cands=()):
             texts["ufabs"] = to_smt2(hh, gg)
     except z3.Z3Exception:
         pass
+    try:
+        from . import ring
+        base_h, base_g = (ih, ig) if "inst" in texts else (list(hyps) + list(opt or []), skolemize_goal(goal)[0])
+        nq = ring.normalize_query(base_h, base_g)
+        if nq is not None:
+            c3 = {}
+            texts["ring"] = to_smt2(nq[0], nq[1])
+            texts["ring+ufabs"] = to_smt2([uf_abstract(h, c3) for h in nq[0]], uf_abstract(nq[1], c3))
+    except z3.Z3Exception:
+        pass
     for ci, cand in enumerate(cands):
-        if isinstance(cand, dict):
-            allh = _subst(list(hyps) + list(opt or []), cand)
-            texts[f"cand{ci}"] = (to_smt2(allh, _subst([goal], cand)[0]), cand)
-        else:
-            # extra hypotheses pinning uninterpreted inputs (e.g. "every rotation of the batch is the identity")
-            extra, label = cand
-            g2, _sk2 = skolemize_goal(goal)
-            texts[f"cand{ci}"] = (to_smt2(list(hyps) + list(opt or []) + list(extra), g2), dict(label))
+        # (substitution of input constants, extra hypotheses pinning uninterpreted inputs, labels for the replay)
+        subst, extra, label = cand
+        g2, _sk2 = skolemize_goal(goal)
+        allh = list(hyps) + list(opt or []) + list(extra)
+        weakened = False
+        if any(_has_quant(h) for h in allh):
+            # quantified hypotheses rarely admit a `sat` answer: search on their instances (candidate model only)
+            try:
+                allh, g2 = instantiate(allh, goal)
+                weakened = True
+            except z3.Z3Exception:
+                pass
+        if subst:
+            allh = _subst(allh, subst)
+            g2 = _subst([g2], subst)[0]
+        lab = dict(label)
+        lab.update(subst)
+        texts[f"cand{ci}"] = (to_smt2(allh, g2), lab, weakened)
     if opt:
         texts["all+opt"] = to_smt2(list(hyps) + list(opt), goal)
     for level in (0, 1):
@@ -420,7 +509,8 @@ def _discharge_staged(texts, timeout_s):
     Only a model of *all* hypotheses counts as a refutation; a model of the instantiated query is a candidate."""
     total = 0.0
     full_key = "all+opt" if "all+opt" in texts else "all"
-    prove_order = ["all", "all+opt", "inst", "inst+ufabs", "ufabs", "cone0", "cone0+opt", "cone1", "cone1+opt"]
+    prove_order = ["all", "all+opt", "inst", "inst+ufabs", "ufabs", "ring+ufabs", "ring", "cone0", "cone0+opt",
+                   "cone1", "cone1+opt"]
     last_full = None
     candidate = None
     for budget, use_cvc5 in ((min(2, timeout_s), False), (timeout_s, True)):
@@ -443,12 +533,14 @@ def _discharge_staged(texts, timeout_s):
         # bounded counterexample search: instantiate hard (nonlinear) inputs with concrete candidates; a model of
         # the instantiated query is a model of the original one
         for k in sorted(t for t in texts if t.startswith("cand")):
-            txt, cand = texts[k]
+            txt, cand, weakened = texts[k]
             r3 = run_one(txt, budget, use_cvc5=False)
             total += r3["time"]
             if r3["verdict"] == "sat":
                 r3["model"].update(cand)
                 r3["time"], r3["stage"] = total, k
+                if weakened:
+                    r3["candidate_only"] = True
                 return r3
         if candidate is not None:
             candidate["time"], candidate["stage"] = total, "inst"
@@ -460,11 +552,31 @@ def _discharge_staged(texts, timeout_s):
 
 
 def discharge_all(obligs, timeout_s=10, workers=16):
-    """obligs: list of (hyps, opt, goal[, candidates])"""
-    prepared = [(prepare_staged(o[0], o[1], o[2], o[3] if len(o) > 3 else ()), o[4] if len(o) > 4 else None)
-                for o in obligs]
+    """obligs: list of (hyps, opt, goal[, candidates[, hint]]).  Round 1 tries the plain query with a short budget
+    (cheap to generate, decides most obligations); only the rest get the full stage ladder."""
+    n = len(obligs)
+    results = [None] * n
+    first = [to_smt2(o[0], o[2]) for o in obligs]
+    short = min(2, timeout_s)
     with ThreadPoolExecutor(max_workers=workers) as ex:
-        return list(ex.map(lambda t: discharge_staged(t[0], timeout_s, t[1]), prepared))
+        r1 = list(ex.map(lambda t: run_one(t, short, use_cvc5=False), first))
+    todo = []
+    for i, (o, r) in enumerate(zip(obligs, r1)):
+        if r["verdict"] == "unsat":
+            r["stage"] = "all"
+            results[i] = r
+        else:
+            todo.append(i)
+    prepared = {}
+    for i in todo:
+        o = obligs[i]
+        prepared[i] = (prepare_staged(o[0], o[1], o[2], o[3] if len(o) > 3 else ()), o[4] if len(o) > 4 else None)
+    with ThreadPoolExecutor(max_workers=workers) as ex:
+        r2 = list(ex.map(lambda i: discharge_staged(prepared[i][0], timeout_s, prepared[i][1]), todo))
+    for i, r in zip(todo, r2):
+        r["time"] += r1[i]["time"]
+        results[i] = r
+    return results
 
 
 def discharge(obligs, timeout_s=10, workers=16):
